@@ -150,6 +150,7 @@ class Emitter:
         self.opaque_types = set()
         self.ec_consts = []
         self.lib_enums = []
+        self.extra_fns = {}
         self.lambdas_of = {}
         self.lambda_types = {}
         self.lambda_ctx = {}
@@ -1394,6 +1395,19 @@ class Emitter:
             if x is not None:
                 return x
         return self.stub_call(n, rd, args, cnode=cnode)
+
+    def handler_fields(self, ti):
+        """fields of a repository record that hold a type-erased completion handler"""
+        return [f for f in self.fields_of(ti.decl) if 'any_completion_handler' in (qt(f) + qt_sugar(f)) or qt_sugar(f).strip() in ('handler_type',)]
+
+    def record_mover(self, ti):
+        """T__move(T *src): member-wise move construction; a moved-from
+        any_completion_handler is empty (assumed Asio contract)"""
+        nm = ti.c.replace('struct ', '') + '__move'
+        if nm not in self.extra_fns:
+            zero = ' '.join('src->%s = 0;' % f['name'] for f in self.handler_fields(ti))
+            self.extra_fns[nm] = 'static inline %s %s(%s *src) { %s r = *src; %s return r; }' % (ti.c, nm, ti.c, ti.c, zero)
+        return nm
 
     def force_stub(self, fn):
         """calls that leave the part of the repository this unit puts under
